@@ -1037,8 +1037,14 @@ class _Also:
             self.seen.add(k)
             self.cases.setdefault(key, []).append(case)
 
-    def get(self, key, default_case):
-        return self.cases.get(key, [default_case])[: self.CAP]
+    def get(self, key, case):
+        """the list for the entry whose reported (smallest) case is `case`; `case` is always a member: when it
+        lies behind the cap it takes the last place"""
+        every = self.cases.get(key, [case])
+        out = every[: self.CAP]
+        if case not in out:
+            out = every[: self.CAP - 1] + [case]
+        return out
 
 
 def bounded_abbreviated_code(tier='quick'):
